@@ -242,9 +242,31 @@ pub fn run(ctx: &mut Ctx) {
         }
         exec(ctx, &s, limit, &gen::const_cuts(s.len(), 1));
     }
+    server_family(ctx);
+}
+
+/// Server level: a client that sends the header block with Expect and withholds the body
+/// receives the 100 after bounded polling, then sends the body and the request is yielded.
+fn server_family(ctx: &mut Ctx) {
+    use crate::hist::{self, Piece, Size};
+    use crate::props::c08::{self, P08};
+    let quick = ctx.quick();
+    let mut p = P08::new(2, 2);
+    p.pieces = vec![Piece::Expect, Piece::Get];
+    hist::dfs(ctx, &mut p, if quick { 7 } else { 9 }, 3, "C13:server", 6);
+    let mut p = P08::new(3, 4);
+    p.pieces = vec![Piece::Expect, Piece::Put, Piece::Get, Piece::Two];
+    p.sizes = vec![Size::Small, Size::Medium];
+    let n = ctx.budget(2_000, 100_000) / ctx.nshards;
+    hist::random_histories(ctx, &mut p, n, 10, 60, "C13:server", &mut c08::choose);
 }
 
 pub fn replay(ctx: &mut Ctx, case: &J) {
+    if case.gs("engine") == "server-simulator" {
+        let mut p = crate::props::c08::P08::new(3, 4);
+        crate::hist::replay_history(ctx, &mut p, case, "C13:server");
+        return;
+    }
     let stream = case.ghex("stream_hex");
     let limit = case.gu("limit") as usize;
     let cuts: Vec<usize> = case.garr("cuts").iter().filter_map(|c| c.as_u64()).map(|c| c as usize).collect();
